@@ -976,6 +976,43 @@ def _tree(doc=None, text=None, suffix=".json", cfg=None):
     return files, errors
 
 
+# ---- every generated endpoint module compiles, whatever mix of defaulted / plain parameters the operation declares (C01) ----------
+
+def signature_order_cases(tier):
+    """two path parameters and two query parameters (one required), each with or without a schema default"""
+    out = []
+    for bits in itertools.product([False, True], repeat=4):
+        out.append({"path_defaults": list(bits[:2]), "query_defaults": list(bits[2:])})
+    return out
+
+
+def signature_order(case):
+    def param(name, loc, required, dflt):
+        sch = {"type": "integer"}
+        if dflt:
+            sch["default"] = 5
+        return {"name": name, "in": loc, "required": required, "schema": sch}
+    p1, p2 = case["path_defaults"]
+    q1, q2 = case["query_defaults"]
+    doc = _base({"/a/{x}/{y}": {"get": {"operationId": "g", "parameters": [
+        param("x", "path", True, p1), param("y", "path", True, p2), param("q", "query", False, q1), param("r", "query", True, q2)],
+        "responses": {"204": {"description": "ok"}}}}})
+    try:
+        files, errors = _tree(doc)
+    except BaseException as e:  # noqa
+        return f"generate() raised {type(e).__name__}: {str(e)[:120]}"
+    if errors:
+        return None          # a diagnostic is an answer
+    for rel, text in sorted(files.items()):
+        if not str(rel).endswith(".py"):
+            continue
+        try:
+            compile(text, str(rel), "exec")
+        except SyntaxError as e:
+            return f"generated module {rel} does not compile: {e.msg} (line {e.lineno}: {(e.text or '').strip()[:60]})"
+    return None
+
+
 def equivalent_docs_cases(tier):
     return ["nullable-30-vs-typelist", "nullable-ref-allof", "wrapper-allof", "wrapper-oneof", "wrapper-anyof", "json-vs-yaml",
             "nullable-model-oneof", "null-enum-param-shared", "wrapper-with-default", "same-ref-twice-in-union",
